@@ -7,8 +7,10 @@ import HickoryVerif.Lemmas.AuthZoneBasic
 namespace HickoryVerif.C10
 open HickoryVerif HickoryVerif.AuthZone
 
-/-- every rdata of an RRset returned by `inner_lookup` is an rdata of an RRset of the zone -/
-def rdatasFromZone (z : Zone) (a : RRset) : Prop := ∃ r ∈ z, a.rdatas = r.rdatas
+/-- an RRset returned by `inner_lookup` is an RRset of the zone up to its owner name: same rdatas,
+same RRSIGs (wildcard synthesis only re-owns it) -/
+def rdatasFromZone (z : Zone) (a : RRset) : Prop :=
+  ∃ r ∈ z, a.rdatas = r.rdatas ∧ a.sigLabels = r.sigLabels
 
 theorem walk_mem {z : Zone} {qn : LName} {t : Nat} :
     ∀ (s : LName) {a : RRset}, walk z qn t s = some a → a ∈ z := by
@@ -60,7 +62,7 @@ theorem innerLookup_rdatas {z : Zone} {n : LName} {t : Nat} {a : RRset}
   split at h
   · rename_i r hl
     cases h
-    exact ⟨a, lookupExact_mem hl, rfl⟩
+    exact ⟨a, lookupExact_mem hl, rfl, rfl⟩
   · unfold innerLookupWildcard wildSource at h
     cases n with
     | nil => simp at h
@@ -74,11 +76,11 @@ theorem innerLookup_rdatas {z : Zone} {n : LName} {t : Nat} {a : RRset}
           rw [hw] at h
           simp only [Option.map_some, Option.some.injEq] at h
           subst h
-          exact ⟨p.2, wildClimb_mem rest hw, rfl⟩
+          exact ⟨p.2, wildClimb_mem rest hw, rfl, rfl⟩
 
 theorem head_target_mem_targets {z : Zone} {a : RRset} (ha : rdatasFromZone z a) {n : LName}
     (h : a.rdatas.head?.bind (·.target) = some n) : n ∈ targets z := by
-  obtain ⟨r, hr, hrd⟩ := ha
+  obtain ⟨r, hr, hrd, _⟩ := ha
   cases hh : a.rdatas.head? with
   | none => rw [hh] at h; cases h
   | some rd =>
